@@ -78,10 +78,11 @@ type vC07Fo struct {
 // a report that is inside metadataAPI.ReportLeader: it has passed the (leader,
 // epoch) check and is parked at the gate before the witness registration
 type vC07Pend struct {
-	K       string `json:"k"` // report | shrink | expand
+	K       string `json:"k"` // report | shrink | expand | elect
 	W       string `json:"w"`
 	L       string `json:"l"`
 	E       int64  `json:"e"`
+	gate    string // the gate this request parks at
 	parked  chan struct{}
 	release chan struct{}
 	done    chan *status.Status
@@ -101,12 +102,16 @@ func vGoID() uint64 {
 // registered a slot for it (ordinary, atomic reports pass straight through)
 func vC07Gate(name string) {
 	switch name {
-	case "metadata.report_leader.checked", "metadata.shrink_isr.checked", "metadata.expand_isr.checked":
+	case "metadata.report_leader.checked", "metadata.shrink_isr.checked", "metadata.expand_isr.checked",
+		"metadata.elect.checked":
 	default:
 		return
 	}
 	if v, ok := vC07Slots.Load(vGoID()); ok {
 		slot := v.(*vC07Pend)
+		if slot.gate != name {
+			return
+		}
 		close(slot.parked)
 		<-slot.release
 	}
@@ -282,6 +287,15 @@ func (r *vC07Run) create(isr []string) error {
 	r.e0 = int64(e)
 	r.captureTerm()
 	return nil
+}
+
+func (r *vC07Run) electParked() bool {
+	for _, x := range r.pend {
+		if x.K == "elect" {
+			return true
+		}
+	}
+	return false
 }
 
 func (r *vC07Run) failover() *failoverStatus {
@@ -463,7 +477,7 @@ func (r *vC07Run) step(step map[string]interface{}) (ev vC07Event, ok bool) {
 			w, ps := vStr(step, "w"), vStr(step, "ps")
 			l, e := r.pair(ps)
 			args["w"], args["ps"], args["l"], args["e"] = w, ps, l, int64(e)
-			slot := &vC07Pend{K: "report", W: w, L: l, E: int64(e), parked: make(chan struct{}),
+			slot := &vC07Pend{K: "report", W: w, L: l, E: int64(e), gate: "metadata.report_leader.checked", parked: make(chan struct{}),
 				release: make(chan struct{}), done: make(chan *status.Status, 1)}
 			go func() {
 				gid := vGoID()
@@ -485,6 +499,52 @@ func (r *vC07Run) step(step map[string]interface{}) (ev vC07Event, ok bool) {
 			case <-time.After(vC07Deadline):
 				panic("report neither parked nor returned")
 			}
+		case "ElectCheck":
+			// a report that may complete the quorum: it runs up to the comparison inside
+			// electNewPartitionLeader (gate metadata.elect.checked) and parks there; a
+			// report that does not start an election simply returns
+			w, ps := vStr(step, "w"), vStr(step, "ps")
+			l, e := r.pair(ps)
+			args["w"], args["ps"], args["l"], args["e"] = w, ps, l, int64(e)
+			slot := &vC07Pend{K: "elect", W: w, L: l, E: int64(e), gate: "metadata.elect.checked", parked: make(chan struct{}),
+				release: make(chan struct{}), done: make(chan *status.Status, 1)}
+			start := time.Now()
+			go func() {
+				gid := vGoID()
+				vC07Slots.Store(gid, slot)
+				defer vC07Slots.Delete(gid)
+				c2, cancel2 := context.WithTimeout(context.Background(), vC07Deadline)
+				defer cancel2()
+				slot.done <- r.srv.metadata.ReportLeader(c2, &proto.ReportLeaderOp{
+					Stream: r.stream, Partition: 0, Replica: w, Leader: l, LeaderEpoch: e})
+			}()
+			select {
+			case <-slot.parked:
+				r.pend = append(r.pend, slot)
+				r.armStart = time.Time{} // report() stopped the timer before the election
+			case st := <-slot.done:
+				obs.Err = vC07ErrClass(st)
+				if obs.Err == "" {
+					r.armStart = start
+				}
+			case <-time.After(vC07Deadline):
+				panic("report neither parked nor returned")
+			}
+		case "ElectApply":
+			i := int(vInt(step, "i"))
+			args["i"] = i
+			args["pref"] = vStrDef(step, "pref", "none")
+			if i < 1 || i > len(r.pend) || r.pend[i-1].K != "elect" ||
+				r.srv.metadata.GetPartition(r.stream, 0) == nil {
+				obs.A, a = "Skip", "Skip"
+				return
+			}
+			slot := r.pend[i-1]
+			r.prefer(vStrDef(step, "pref", "none"))
+			close(slot.release)
+			st := <-slot.done
+			r.pend = append(append([]*vC07Pend{}, r.pend[:i-1]...), r.pend[i:]...)
+			obs.Err = vC07ErrClass(st)
 		case "ISRCheck":
 			k, rep, ps := vStr(step, "k"), vStr(step, "r"), vStr(step, "ps")
 			l, e := r.pair(ps)
@@ -493,7 +553,7 @@ func (r *vC07Run) step(step map[string]interface{}) (ev vC07Event, ok bool) {
 				obs.A, a = "Skip", "Skip" // outside the domain, see Shrink
 				return
 			}
-			slot := &vC07Pend{K: k, W: rep, L: l, E: int64(e), parked: make(chan struct{}),
+			slot := &vC07Pend{K: k, W: rep, L: l, E: int64(e), gate: "metadata." + k + "_isr.checked", parked: make(chan struct{}),
 				release: make(chan struct{}), done: make(chan *status.Status, 1)}
 			go func() {
 				gid := vGoID()
@@ -537,7 +597,7 @@ func (r *vC07Run) step(step map[string]interface{}) (ev vC07Event, ok bool) {
 		case "ISRApply":
 			i := int(vInt(step, "i"))
 			args["i"] = i
-			if i < 1 || i > len(r.pend) || r.pend[i-1].K == "report" ||
+			if i < 1 || i > len(r.pend) || (r.pend[i-1].K != "shrink" && r.pend[i-1].K != "expand") ||
 				r.srv.metadata.GetPartition(r.stream, 0) == nil {
 				obs.A, a = "Skip", "Skip"
 				return
@@ -656,11 +716,19 @@ func (r *vC07Run) step(step map[string]interface{}) (ev vC07Event, ok bool) {
 			}
 			r.armStart = time.Time{}
 		case "Expire":
+			if r.electParked() {
+				obs.A, a = "Skip", "Skip" // outside the domain
+				return
+			}
 			expire = true
 			if !r.expire() {
 				timing = true
 			}
 		case "Lose":
+			if r.electParked() {
+				obs.A, a = "Skip", "Skip" // outside the domain
+				return
+			}
 			raft := r.srv.getRaft()
 			if err := r.srv.leadershipLost(raft); err != nil {
 				obs.Err = "other:" + err.Error()
